@@ -162,7 +162,15 @@ class Seams:
         self._patch(time, "time", self.time)
         seams = self
 
-        class FakeDateTime(_dt.datetime):
+        class _AnyDateTime(type):
+            def __instancecheck__(cls, inst):  # values derived from a substituted instance (.date(), arithmetic) are of the real type
+                return isinstance(inst, _dt.datetime)
+
+        class _AnyDate(type):
+            def __instancecheck__(cls, inst):
+                return isinstance(inst, _dt.date)
+
+        class FakeDateTime(_dt.datetime, metaclass=_AnyDateTime):
             @classmethod
             def now(cls, tz=None):
                 return cls.fromtimestamp(seams._read(), tz)  # an instance of the substituted class: isinstance(x, datetime) holds inside the library
@@ -171,7 +179,7 @@ class Seams:
             def utcnow(cls):
                 return cls.utcfromtimestamp(seams._read())
 
-        class FakeDate(_dt.date):
+        class FakeDate(_dt.date, metaclass=_AnyDate):
             @classmethod
             def today(cls):
                 return cls.fromtimestamp(seams._read())
